@@ -42,6 +42,14 @@ pub async fn dispatch(ctx: &Ctx, rep: &mut ShardReport) -> bool {
             crate::groups::run(ctx, rep).await;
             true
         }
+        "C11" => {
+            crate::journal::run(ctx, rep).await;
+            true
+        }
+        "C12" => {
+            crate::conc::run(ctx, rep).await;
+            true
+        }
         "C09" => {
             crate::perm::run(ctx, rep).await;
             true
